@@ -47,8 +47,13 @@ func (c *Ctx) checkGroupContexts(r *Report, rule, rel string) {
 		// members
 		var members []*ssa.Function
 		allInstrs(f, func(i ssa.Instruction) {
-			if cl, ok := isGroupGo(i); ok && cl != nil {
-				members = append(members, cl)
+			// the closure literal itself (its captured variables are what the rule is about), not what it forwards to
+			if ci, ok := i.(ssa.CallInstruction); ok && calleeName(ci.Common()) == "(*golang.org/x/sync/errgroup.Group).Go" && len(ci.Common().Args) > 1 {
+				if mc, ok := ci.Common().Args[1].(*ssa.MakeClosure); ok {
+					if cl, ok := mc.Fn.(*ssa.Function); ok {
+						members = append(members, cl)
+					}
+				}
 			}
 		})
 		// contexts cancelled by a member that waits for the group context
@@ -62,6 +67,45 @@ func (c *Ctx) checkGroupContexts(r *Report, rule, rel string) {
 					}
 				}
 			})
+			// a member whose body was moved into a method: func() error { return h.onShutdown(groupCtx, cancel) }
+			if g := forwardTarget(m); g != m && !waits {
+				argOf := map[*ssa.Parameter]ssa.Value{}
+				allInstrs(m, func(i ssa.Instruction) {
+					if call, ok := i.(*ssa.Call); ok && staticCallee(&call.Call) == g {
+						for k, a := range call.Call.Args {
+							if k < len(g.Params) {
+								argOf[g.Params[k]] = a
+							}
+						}
+					}
+				})
+				allInstrs(g, func(i ssa.Instruction) {
+					if u, ok := i.(*ssa.UnOp); ok && u.Op == token.ARROW && c.isContextDone(u.X) {
+						if p, ok := u.X.(*ssa.Call).Call.Value.(*ssa.Parameter); ok && argOf[p] != nil && c.bindingIs(m, argOf[p], isGctx) {
+							waits = true
+						}
+					}
+				})
+				if waits {
+					allInstrs(g, func(i ssa.Instruction) {
+						ci, ok := i.(ssa.CallInstruction)
+						if !ok {
+							return
+						}
+						p, ok := ci.Common().Value.(*ssa.Parameter)
+						if !ok || argOf[p] == nil {
+							return
+						}
+						if b := c.bindingOf(m, argOf[p]); b != nil {
+							if ex, ok := c.storedValue(b).(*ssa.Extract); ok && ex.Index == 1 {
+								if call, ok := ex.Tuple.(*ssa.Call); ok && calleeName(&call.Call) == "context.WithCancel" {
+									cancelledByMember[call] = true
+								}
+							}
+						}
+					})
+				}
+			}
 			if !waits {
 				continue
 			}
